@@ -627,9 +627,11 @@ class Node:
         if not isinstance(answer_msg, DefinedMessage):
             # a command with no python implementation: its attributes do not
             # produce any AVPs, the base AVPs have to be added as such
-            if hasattr(msg, "session_id"):
-                answer_msg.append_avp(Avp.new(
-                    constants.AVP_SESSION_ID, value=msg.session_id))
+            # (a repeated AVP appears as a list in the attributes of such a
+            # message: the Session-Id is taken over as the AVP it arrived in)
+            session_id_avps = msg.find_avps((constants.AVP_SESSION_ID, 0))
+            if session_id_avps:
+                answer_msg.append_avp(session_id_avps[0])
             answer_msg.append_avp(Avp.new(
                 constants.AVP_ORIGIN_HOST, value=self.origin_host.encode()))
             answer_msg.append_avp(Avp.new(
